@@ -299,7 +299,7 @@ def judge1(case, impl):
         return 'the inverse has a non-finite entry'
     why = must_refuse(rows)
     if why:
-        return 'an inverse was returned for a singular matrix: ' + why
+        return MUST_REFUSE + why
     v = check_inverse(rows, B)
     if v:
         return v
@@ -322,6 +322,28 @@ def judge1(case, impl):
                     if abs(FA2[i][j] - FA[i][j]) > 2 * (T1[i][j] + T2[i][j]):
                         return 'inverse of the inverse does not return to A within the condition-scaled envelope'
     return None
+
+
+MUST_REFUSE = 'an inverse was returned for a singular matrix: '
+SINGULAR_SMALL_INT = 'singular matrix with entries in -2..2'
+F21_WITNESS = [[-1.0, -2.0, 1.0, 2.0], [2.0, -1.0, 1.0, -2.0], [-1.0, 1.0, -1.0, -1.0], [-2.0, -1.0, 0.0, 1.0]]
+
+
+def known(case, impl, clause):
+    """F21 (known_findings.d/C10.json): ONLY the must-refuse clause for an exactly singular integer matrix with entries in
+    -2..2 of order >= 4 for which a matrix with all entries finite was returned.  A slip at n <= 3, a non-finite
+    output or any other clause stays a violation."""
+    if clause != MUST_REFUSE + SINGULAR_SMALL_INT:
+        return None
+    cmd, h, w, rows = parse(case)
+    if h != w or h < 4:
+        return None
+    if not is_small_int_matrix(rows, 2) or det_int([[int(x) for x in r] for r in rows]) != 0:
+        return None
+    out = parse_out(impl, 2 if cmd == 'inv2' else 1)
+    if out[0] != 'ok' or out[1] != h or not all(finite(m) for m in out[2]):
+        return None
+    return 'F21 exactly singular -2..2 matrix of order %d inverted: rounding residue in the last pivot above n*eps*max|a|' % h
 
 
 def compare(case, impl, model):
@@ -444,6 +466,8 @@ def gen(rng, tier):
         for e in itertools.product((-2.0, -1.0, 0.0, 1.0, 2.0), repeat=9):
             yield mk('inv', [list(e[0:3]), list(e[3:6]), list(e[6:9])], 'ex3x3_2')
     k = 1 if quick else 25
+    # the fixed witness of the known finding F21 (keeps the KNOWN-FINDING line stable)
+    yield mk('inv', F21_WITNESS, 'f21witness')
     yield mk('inv', [], 'empty')
     yield mk('inv2', [], 'empty')
     for v in (0.0, -0.0, 1.0, -3.5, 2.0 ** -52, 2.0 ** -53, 1e-20, 1e6, 2.0 ** 60):
